@@ -145,6 +145,8 @@ def _normalise_negated_ifs(fn):
 def canonicalise(repo):
     """mutates the function ASTs of `repo` in place; returns the list of renames performed"""
     done = []
+    from .inline import inline_new_helpers
+    done += inline_new_helpers(repo)
     for m in repo.modules.values():
         for fn in ast.walk(m.tree):
             if isinstance(fn, (ast.FunctionDef, ast.AsyncFunctionDef)):
